@@ -74,7 +74,31 @@ def refactors_table():
     return "\n".join(rows)
 
 
-BLOCKS = {"refactors": refactors_table, "seeded": seeded_table, "fixed": fixed_table, "findings": findings_table, "claims": claims_table}
+def built_table():
+    import glob
+    rows = ["| property | theorems in Props | model / proof files it imports | lines (model+proofs) | harness | notes |", "|---|---|---|---|---|---|"]
+    for f in sorted(glob.glob(ROOT + "/coq/Props/C*.v")):
+        pid = os.path.basename(f)[:-2]
+        t = re.sub(r"\(\*.*?\*\)", "", open(f).read(), flags=re.S)
+        n = len(re.findall(r"^\s*(Theorem|Lemma|Corollary|Example|Fact|Proposition)\s", t, flags=re.M))
+        mods = []
+        for imp in re.findall(r"Require Import ([^.]*(?:\.[A-Za-z_0-9]+)*[^.]*)\.\s", t):
+            for w in imp.split():
+                if w.startswith(("Model.", "Proofs.", "Gen.")) and w not in mods:
+                    mods.append(w)
+        lines = 0
+        for m in mods:
+            pth = "%s/coq/%s.v" % (ROOT, m.replace(".", "/"))
+            if os.path.exists(pth):
+                lines += sum(1 for _ in open(pth))
+        h = "harness/props/%s.py" % pid.lower()
+        hl = sum(1 for _ in open(ROOT + "/" + h)) if os.path.exists(ROOT + "/" + h) else 0
+        doc = "docs/%s.md" % pid if os.path.exists("%s/docs/%s.md" % (ROOT, pid)) else ""
+        rows.append("| %s | %d | %s | %d | %s (%d lines) | %s |" % (pid, n, ", ".join(mods), lines, h, hl, doc))
+    return "\n".join(rows)
+
+
+BLOCKS = {"built": built_table, "refactors": refactors_table, "seeded": seeded_table, "fixed": fixed_table, "findings": findings_table, "claims": claims_table}
 
 
 def main():
